@@ -1510,7 +1510,11 @@ class PathExplorer:
                 else:
                     if t["k"] == "call" and "d" in t:
                         d = t["d"]
-                        env2.pop(("L", d[0]), None)
+                        if len(d) == 1:
+                            # the local now holds this call's own result
+                            env2[("L", d[0])] = ("r", ("call", node), False)
+                        else:
+                            env2.pop(("L", d[0]), None)
                         pk = str(d[0])
                         for key in [k for k in env2 if k[0] == "F" and k[1][0] == "discr" and
                                     (k[1][1] == pk or k[1][1].startswith(pk + ".") or k[1][1].startswith(pk + "@"))]:
